@@ -24,7 +24,12 @@ func (e *Entry) Bases() []Base {
 	var out []Base
 	seen := map[string]bool{}
 	addBase := func(b Base) {
-		k := string(e.Encode(b.V))
+		kb, pv := e.SafeEncode(b.V)
+		if pv != nil {
+			out = append(out, b) // kept: C11 reports the encoder panic on this base, C10 skips it
+			return
+		}
+		k := string(kb)
 		if seen[k] && !b.Real {
 			return
 		}
